@@ -110,11 +110,13 @@ class Engine(object):
         self.violations = []      # dicts
         self.samples = []
         self.frontier = []
+        self.leftover = []
         self.complete = True
         self.poisoned = 0
         # per path
         self.prefix = []
         self.trace = []
+        self._decided = {}
         self.pending = []
         self._names = {}
         self._aborted = False
@@ -222,11 +224,15 @@ class Engine(object):
         construction and no solver call is needed (the constraint is still recorded for later models)."""
         if isinstance(e, bool):
             return e
-        e = z3.simplify(e)
+        e = _simplify(e)
         if z3.is_true(e):
             return True
         if z3.is_false(e):
             return False
+        eid = e.get_id()
+        known = self._decided.get(eid)
+        if known is not None:
+            return known        # the same formula was already decided on this path
         i = len(self.trace)
         if i < len(self.prefix):
             taken = self.prefix[i]
@@ -260,6 +266,7 @@ class Engine(object):
                 else:
                     taken = False
         self.trace.append(taken)
+        self._decided[eid] = taken
         self.decisions += 1
         self.solver.add(e if taken else z3.Not(e))
         return taken
@@ -325,11 +332,13 @@ class Engine(object):
                 if self.deadline is not None and time.time() > self.deadline:
                     self.complete = False
                     break
-                if max_paths is not None and self.paths >= max_paths:
-                    self.complete = False
+                if max_paths is not None and (self.paths + self.cut) >= max_paths:
+                    self.leftover = self.pending     # handed back to the scheduler, not lost
+                    self.pending = []
                     break
                 self.prefix = self.pending.pop()
                 self.trace = []
+                self._decided = {}
                 self._names = {}
                 self._aborted = False
                 self.sample_fn = None
@@ -362,6 +371,21 @@ class Engine(object):
         return {"paths": self.paths, "cut": self.cut, "decisions": self.decisions, "forks": self.forks,
                 "checks": dict(self.checks), "solver_s": round(self.solver_s, 3), "asserts": dict(self.asserts),
                 "complete": self.complete, "poisoned": self.poisoned}
+
+
+_SIMP = {}
+
+
+def _simplify(e):
+    """z3.simplify with a cache keyed by AST id (terms are kept alive so ids stay valid); the same formulas recur on
+    every path because variable names are deterministic per path"""
+    k = e.get_id()
+    hit = _SIMP.get(k)
+    if hit is None:
+        if len(_SIMP) > 400000:
+            _SIMP.clear()
+        hit = _SIMP[k] = (e, z3.simplify(e))
+    return hit[1]
 
 
 # -------------------------------------------------------------------- proxies
